@@ -44,7 +44,7 @@ static inline int pop(int kind, int j) {
   case 3: n = __cds_wfs_pop_with_state_nonblocking(&S, &st); break;
   default: n = cds_wfs_pop_blocking(&S); break;
   }
-  if ((kind == 2 || kind == 3) && n && n != WB && (st & CDS_WFS_STATE_LAST)) rt_gset(HG_USER + 8 + j, 1);
+  if ((kind == 2 || kind == 3) && n && n != WB) rt_gset(HG_USER + 8 + j, (st & CDS_WFS_STATE_LAST) ? 1 : 2);
 #else
   switch (kind) {
   case 0: n = __cds_lfs_pop(&S); break;
@@ -88,10 +88,23 @@ static inline void all_checks(void) {
   h_check_basic(); h_check_conservation(); h_check_lifo(); h_check_empty_answers(); h_check_wouldblock();
 #if KIND == 0 && (POP == 2 || POP == 3)
   for (int j = 0; j < H_ND; j++) {
-    if (!rt_gget(HG_USER + 8 + j)) continue;
-    for (int a = 0; a < H_NN; a++) if (a != h_rval(j)) rt_assert(!h_def_present(a, h_rcall(j), h_rret(j)), "STATE_LAST only when the popped node was the last one");
-    rt_cover(1, "pop reported STATE_LAST");
+    uint64_t fl = rt_gget(HG_USER + 8 + j); int v = h_rval(j);
+    if (!fl) continue;
+    rt_cover(fl == 1, "pop reported STATE_LAST");
+    rt_cover(fl == 2, "pop without STATE_LAST");
+    if (fl == 1) {
+      for (int a = 0; a < H_NN; a++) if (a != v) rt_assert(!h_def_present(a, h_rcall(j), h_rret(j)), "STATE_LAST only when the popped node was the last one");
+    } else {
+      /* not LAST: when v was popped some node c was below it: c's push can have taken effect before v's push did, and c was
+       * not yet removed when this pop was called */
+      int below = 0;
+      for (int c = 0; c < H_NN; c++)
+        if (c != v && h_istarted(c) && h_icall(c) < h_iret(v) && (!h_removed(c) || h_vret(c) > h_rcall(j))) below = 1;
+      rt_assert(below, "a pop that does not report STATE_LAST left another node on the stack");
+    }
   }
+  /* push reporting "was empty": no node whose push completed before can still be (definitely) on the stack - and conversely the
+   * node that a LAST pop removed and a push that saw an empty stack agree (checked through the clauses above and below) */
 #endif
   for (int b = 0; b < H_NN; b++) {       /* push's "was non-empty" result */
     if (!h_idone(b)) continue;
@@ -182,6 +195,35 @@ void epi5(void) {
   for (int a = 0; a < H_NN; a++) if (rt_bget(HB_VCNT, a) > 1) lost = 1;
   rt_cover(lost || bad, "ABA corruption reachable when nodes are recycled without a grace period");
 #endif
+}
+#endif
+#if SCEN == 7      /* lfstack, mutex-protected scheme: locked pop vs locked pop_all followed by an immediate re-push of the former top node
+                      (legal under the mutex scheme: no grace period needed) */
+void pro7(void) { cds_lfs_init(&S); push(0); push(1); push(2); }     /* stack: 2,1,0 */
+void c1(void) { pop(4, 0); }
+void c2(void) {
+  uint32_t c = h_rem_call();
+  struct cds_lfs_head *h = cds_lfs_pop_all_blocking(&S);
+  uint32_t r = rt_stamp();
+  struct cds_lfs_node *n, *first = 0; int k = 0;
+  cds_lfs_for_each(h, n) {
+    int v = idx(n); rt_assert(v >= 0 && k < H_NN, "pop_all list is a finite list of pushed nodes");
+    if (!first) first = n;
+    else { rt_gset(HG_R(1 + k, 0), c); rt_gset(HG_R(1 + k, 2), (uint64_t)(v + 3)); rt_gset(HG_R(1 + k, 1), r);
+           rt_bset(HB_VCNT, v, rt_bget(HB_VCNT, v) + 1); rt_bset(HB_VCALL, v, c); rt_bset(HB_VRET, v, r); }
+    k++;
+  }
+  if (first) { cds_lfs_node_init(first); cds_lfs_push(&S, first); rt_cover(1, "former top node pushed back right after pop_all"); }   /* same identity: it simply stays in the stack */
+}
+void epi7(void) {
+  int bad = 0;
+  for (int k = 0; k < H_NN + 1; k++) {
+    uint32_t c = h_rem_call(); node_t *n = __cds_lfs_pop(&S); int v = idx(n);
+    h_rem_ret(4 + (k < 4 ? k : 3), c, v);
+    if (v == H_NONE) break;
+    if (k == H_NN) bad = 1;
+  }
+  rt_assert(!bad, "stack drains"); h_check_basic(); h_check_conservation();
 }
 #endif
 #if SCEN == 6      /* progress: pop_all alone (no iteration) */
